@@ -111,6 +111,9 @@ class ExprMixin(object):
             yield s, (vs if is_exc(vs) else TupV(vs))
 
     def ev_Dict(self, n, st):
+        if not n.keys and self.spec.hints.get('empty_dict') is not None:
+            yield self.spec.hints['empty_dict'](self, st)      # a sidecar map model for a dict keyed by symbolic strings
+            return
         if all(isinstance(k, ast.Constant) for k in n.keys):
             for s, vs in self.evs(n.values, st):
                 if is_exc(vs):
@@ -729,6 +732,15 @@ class ExprMixin(object):
         s.loc = dict(s.loc)
         s.loc[var] = lst.get(j)
         outs = list(self.ev(n.elt, s))
+        if len(outs) == 1 and isinstance(outs[0][1], SeqV) and len(outs[0][0].pc) == len(s.pc):
+            # a byte-string valued pure element expression: the element-wise image, as a functional list of sequences
+            sb, kind = outs[0][1].t, outs[0][1].kind
+            rv = ListV(lst.n, lambda i: SeqV(z3.substitute(sb, (j, i if z3.is_expr(i) else z3.IntVal(i))), kind), tag='fseq')
+            if as_list:
+                yield self.new_list(st, rv)
+            else:
+                yield st, rv
+            return
         if len(outs) != 1 or is_exc(outs[0][1]) or not is_intlike(outs[0][1]):
             raise Unsupported('comprehension element is not a pure integer expression at line %d' % n.lineno)
         body = to_int(outs[0][1])
